@@ -4,7 +4,7 @@
    heap     : bufid -> buffer header {ref; immutable; nocopy; traits; size; used} + [size] data bytes
    handle   : what MPT_STRUCT(array) / MPT_STRUCT(slice) hold: an optional bufid (+ window off,len)
    Every function is a transcription of the C function named in its comment (the
-   tree AFTER the fix: commits of branch verif-C04); all data accesses go through
+   code as it is on /repo main, after the fix: commits); all data accesses go through
    [rd]/[wr]/[mv] (Base/Mem.v), which yield [Fault] outside the [size] bytes of the block.
 
    Traits: only raw buffers (traits id 0 = NULL) and POD element types without
@@ -67,12 +67,12 @@ Definition buffer_insert (b : buf) (pos len : nat) : res buf :=
   do m2 <- (if used <? pos then wr m1 used (zeros (pos - used)) else Ok m1);
   Ok (set_used (set_data b m2) total).
 
-(* buffer_cut.c: len = 0 truncates at off *)
-Definition buffer_cut (b : buf) (off len : nat) : res buf :=
+(* buffer_cut.c: len = 0 truncates at off (all data behind off is the cut range) *)
+Definition buffer_cut (b : buf) (off len0 : nat) : res buf :=
   let used := bused b in
-  if used <? len then Err BadArgument else
-  do keep <- (if len =? 0 then (if used <? off then Err MissingData else Ok off)
-              else if used - len <? off then Err MissingData else Ok (used - len));
+  if used <? len0 then Err BadArgument else
+  do '(len, keep) <- (if len0 =? 0 then (if used <? off then Err MissingData else Ok (used - off, off))
+                      else if used - len0 <? off then Err MissingData else Ok (len0, used - len0));
   if negb (btr b =? 0) && negb (aligned (btr b) off && aligned (btr b) len) then Err BadArgument else
   let keep' := keep - off in
   do m <- (if keep' =? 0 then Ok (bdata b) else mv (bdata b) off (off + len) keep');
@@ -125,10 +125,8 @@ Definition haddref (hp : heap) (i : nat) : heap :=
   match hget hp i with None => hp | Some b => hset hp i (set_ref b (bref b + 1)) end.
 
 (* buffer_alloc.c: _mpt_buffer_alloc_detach.  Result: heap and the id of the private buffer.
-   The failure of the copy with the reference already dropped (requested length
-   below the used size of a shared buffer) is a state this model does not
-   represent: Fault (no caller of the fixed tree requests less than [used];
-   theorem model_no_fault). *)
+   Copy path (other references remain): min(used, len) bytes are copied; a failing
+   copy releases the new block and restores the reference count: nothing changed. *)
 Definition detach (hp : heap) (i : nat) (len0 : nat) : res (heap * nat) :=
   match hget hp i with
   | None => Fault
@@ -138,10 +136,12 @@ Definition detach (hp : heap) (i : nat) (len0 : nat) : res (heap * nat) :=
     if negb (bref b <? 2) && bnc b && negb (bused b =? 0) then Err BadOperation else
     let nx := set_tr (new_buf len false (bnc b)) (btr b) in
     if 2 <=? bref b then
-      (* other references remain: copy the content *)
-      match buffer_set nx (btr b) 0 (firstn (bused b) (bdata b)) with
+      (* other references remain: copy the content the new size allows *)
+      let add := if len <? bused b then len else bused b in
+      match buffer_set nx (btr b) 0 (firstn add (bdata b)) with
       | Ok nx' => Ok (hset hp i (set_ref b (bref b - 1)) ++ [Some nx'], length hp)
-      | _ => Fault
+      | Err e => Err e
+      | Fault => Fault
       end
     else
       (* last reference: move the content, release the old block *)
